@@ -5,15 +5,16 @@ import Ops.Metadata
 /- op handler tying the sequential ENCODER model to the C++ encoders (C01/C06/C20):
 
    seqenc <the option tokens of the harness op `enc`> hex=<stream produced by the C++> -- <geometry>
-     -> ok <hex of the model's stream> <rt> | fail | bad-op
+     -> ok <hex of the model's stream> <rt> <dom> <spec> | fail | bad-op
 
    The encoder heuristics (`SeqEnc.Choices`) are read back from the C++ stream with the decoder
    model (`choicesOfStream`); everything else — header, metadata, connectivity, descriptors,
    portable values, quantization parameters (executable `Float32` instance), corrections, symbol
    coding, transform data — is computed by the model and must reproduce the C++ bytes exactly.
    <rt> = `rt-ok` when the model decoder applied to the model's stream returns exactly
-   `SeqEnc.expectedGeometry` (the statement of `pointcloud_seq_roundtrip` / `mesh_seq_roundtrip`
-   evaluated on this input), else `rt-differs`. -/
+   `SeqEnc.expected g opts` (the statement of `pointcloud_seq_roundtrip` / `mesh_seq_roundtrip`
+   evaluated on this input), else `rt-differs`; followed by `domainOf` (are the theorems' decidable
+   hypotheses met?) and the executable specification RoundTripOK of `expected g opts`. -/
 namespace Draco.Ops
 open Draco Draco.Proto Draco.SeqEnc
 
@@ -124,6 +125,31 @@ def choicesOf (sc : StreamChoices) : Choices :=
     attScheme := fun i => sc.scheme.getD i .tagged,
     connScheme := sc.conn }
 
+/-- the decidable part of the theorems' domain (`GeomOK` / `AttOK`), evaluated on the case:
+    `dom-ok`, `dom-octa-fails` (the float oracle hypothesis `octaRowOK` is violated — would be a
+    finding about the hypothesis), or `dom-out` (outside the domain, e.g. no points) -/
+def domainOf (g : Geometry) (eo : EncOpts) : String :=
+  let n := g.numPoints
+  let basic := n > 0 && n < 2^31 && g.valid && g.faces.length ≤ 0xffffffff / 3 &&
+    (zipIdxFrom 0 g.atts).all fun ia =>
+      let a := ia.2
+      let o := eo.att ia.1
+      a.values.all (· < 256) && a.attType < 5 && a.dataType ≤ 11 && a.numComponents ≤ 255 &&
+      a.uniqueId < 2^32 && n * a.numComponents < 2^31 &&
+      (match o.explicitQuant with
+       | some (org, r) => r < 2^32 && org.all (· < 2^32)
+       | none => true)
+  if !basic then "dom-out" else
+  let octaOk := (zipIdxFrom 0 g.atts).all fun ia =>
+    let a := ia.2
+    let o := eo.att ia.1
+    if encoderType a o == 3 then
+      match Octa.init o.quantBits.toNat with
+      | some t => (pointRows a n).all (octaRowOK t)
+      | none => true
+    else true
+  if octaOk then "dom-ok" else "dom-octa-fails"
+
 def seqencOp (args : List String) : String :=
   match splitOn2 "--" args with
   | [opts, gT] =>
@@ -137,16 +163,27 @@ def seqencOp (args : List String) : String :=
       if metaTok.isSome && md.isNone then "bad-op" else
       let ch := choicesOf (choicesOfStream (bytesOfHex ((kv opts "hex").getD "-")))
       let eo := encOptsOf opts g
-      match encodeGeometryFull ch g md eo with
+      match encodeGeometry ch g md eo with
       | none => "fail"
-      | some (bs, encs) =>
+      | some bs =>
+        -- the conclusion of pointcloud_seq_roundtrip / mesh_seq_roundtrip on this input
+        let exp := expected g eo
         let rt :=
           match decodeGeometry {} { rest := bs } with
           | (some r, st) =>
-            if st.rest.isEmpty && r.geometry == expectedGeometry g encs && r.metadata == md then "rt-ok"
+            if st.rest.isEmpty && r.geometry == exp && r.metadata == md then "rt-ok"
             else "rt-differs"
           | _ => "rt-differs"
-        s!"ok {hexOfBytes bs} {rt}"
+        -- RoundTripOK (executable specification) of `expected g opts` w.r.t. the declared transforms
+        let req : Spec.QuantReq := (zipIdxFrom 0 g.atts).filterMap fun ia =>
+          if encoderType ia.2 (eo.att ia.1) ≥ 2 then some (ia.2.uniqueId, (eo.att ia.1).quantBits.toNat) else none
+        let spec :=
+          match decodeGeometry { skip := [0, 1, 2, 3, 4] } { rest := bs } with
+          | (some r, _) =>
+            let c := Spec.check .sequential req g exp r.geometry
+            if c == "ok" then "spec-ok" else if c.startsWith "skip" then "spec-skip" else "spec-violation"
+          | _ => "spec-n/a"
+        s!"ok {hexOfBytes bs} {rt} {domainOf g eo} {spec}"
   | _ => "bad-op"
 
 def seqEncOps : List (String × (List String → String)) := [("seqenc", seqencOp)]
